@@ -26,10 +26,10 @@ var spot string
 
 var spotlights = map[string][]string{
 	"C01": {"swap-recheck", "other-invoker", "sibling-P", "inv-as-proof", "lookalike", "long-chain", "prov-dlg", "hook-twice"},
-	"C02": {"self-K", "sibling-K", "alike", "deep", "top-under-one", "long-chain"},
-	"C03": {"uslice", "nullopt", "alias", "twin", "sibling-Q", "hook-null", "optional-and", "starstr"},
+	"C02": {"self-K", "sibling-K", "alike", "deep", "top-under-one", "long-chain", "reserved", "repeat-cmd"},
+	"C03": {"uslice", "nullopt", "alias", "twin", "sibling-Q", "hook-null", "optional-and", "starstr", "same-selector"},
 	"C04": {"far-nbf", "sibling-W", "both-bounds", "unbounded-then-bad"},
-	"C05": {"far-exp", "uslice", "prov-inv", "prov-dlg", "hook-twice", "long-chain", "reuse", "starstr"},
+	"C05": {"far-exp", "uslice", "prov-inv", "prov-dlg", "hook-twice", "long-chain", "reuse", "starstr", "repeat-cmd", "overlap-args"},
 	"C07": {"far-exp", "uslice", "nullopt"},
 	"C09": {"inv-as-proof", "long-chain", "deep"},
 	"":    {"swap-recheck", "other-invoker", "self-K", "sibling-K", "uslice", "nullopt", "alias", "twin", "far-nbf", "far-exp", "inv-as-proof", "sibling-W"},
@@ -130,6 +130,14 @@ func extendCmd(r *Rand, c string) string {
 	if n := len(cmdSegs(c)); n >= 5 && !(deepCommands && n < 40) {
 		return c
 	}
+	if c != "/" && spotWant(r, "repeat-cmd", 0.04) && len(cmdSegs(c)) <= 3 {
+		// the covering command's own segment sequence again, further down the covered one
+		out := c + "/" + Pick(r, cmdSegments[:8]) + c
+		if r.Chance(0.7) {
+			out += "/" + Pick(r, cmdSegments[:8])
+		}
+		return out
+	}
 	s := Pick(r, cmdSegments)
 	if r.Chance(0.06) {
 		// an empty interior segment ("/a//b") is a valid command and a segment like any other
@@ -155,6 +163,10 @@ func notCovered(r *Rand, base string) (string, string) {
 		prefix = "/" + strings.Join(segs[:len(segs)-1], "/")
 	}
 	kinds := []string{"parent", "sibling", "textprefix", "top", "emptyseg", "emptyseg"}
+	kinds = append(kinds, "reserved")
+	if spot == "reserved" {
+		kinds = []string{"reserved"}
+	}
 	if cmdAlike[last] != "" {
 		kinds = append(kinds, "alike", "alike", "alike")
 		if spot == "alike" {
@@ -164,6 +176,8 @@ func notCovered(r *Rand, base string) (string, string) {
 	switch Pick(r, kinds) {
 	case "alike":
 		return prefix + "/" + cmdAlike[last], "alike"
+	case "reserved":
+		return Pick(r, []string{"/ucan", "/ucan/revoke", "/ucan/" + last, "/ucan/a/b"}), "reserved"
 	case "emptyseg":
 		// the same command with one slash doubled: another segment list, neither covers the other
 		if len(segs) >= 2 {
@@ -273,6 +287,10 @@ func genArgs(r *Rand) []KV {
 			}
 		}
 		out = append(out, KV{"rec", Val{K: "list", L: l}})
+		if spotWant(r, "same-selector", 0.5) {
+			// a top-level field of the same name as the field of the records
+			out = append(out, KV{"x", vInt(int64(r.Range(0, 9)))})
+		}
 	}
 	if r.Chance(0.1) {
 		out = append(out, KV{"big", vInt([]int64{9007199254740991, -9007199254740991, 4294967296}[r.Intn(3)])})
@@ -710,7 +728,10 @@ func (g *wgen) buildChain(n int, tcSec int64, args []KV) *chain {
 	}
 	c.inv.Iat = []string{"", "", "none", "past", "future", "zero", "epoch", "y2300"}[r.Intn(8)]
 	c.inv.NonceLen = []int{0, 0, 0, 12, 16, 32, 64, 255, 256, 70000, -1}[r.Intn(11)]
-	c.inv.ArgsVia = Pick(r, []string{"", "", "args", "builder", "include", "split"})
+	c.inv.ArgsVia = Pick(r, []string{"", "", "args", "builder", "include", "split", "overlap"})
+	if spot == "overlap-args" {
+		c.inv.ArgsVia = "overlap"
+	}
 	c.inv.Meta = genMeta(r)
 	c.inv.Cause = r.Chance(0.2)
 	return c
@@ -896,11 +917,13 @@ func genWorld(r *Rand, cfg GenCfg) Plan {
 	switch spot {
 	case "swap-recheck", "other-invoker", "sibling-P", "sibling-K", "sibling-Q", "sibling-W", "prov-dlg", "prov-inv", "hook-twice", "far-exp", "reuse":
 		conform = true
-	case "self-K", "alike", "top-under-one":
+	case "self-K", "alike", "top-under-one", "reserved":
 		conform, forced = false, "K"
+	case "repeat-cmd", "overlap-args":
+		conform = true
 	case "inv-as-proof", "lookalike":
 		conform, forced = false, "P"
-	case "alias", "twin", "hook-null", "optional-and":
+	case "alias", "twin", "hook-null", "optional-and", "same-selector":
 		conform, forced = false, "Q"
 	case "far-nbf", "both-bounds", "unbounded-then-bad":
 		conform, forced = false, "W"
@@ -1546,6 +1569,38 @@ func (g *wgen) deviateQ(c *chain) {
 		pos = "leaf"
 	}
 	s := genStmt(r, c.inv.Args, false, 0, true)
+	if spotWant(r, "same-selector", 0.25) {
+		// the same selector text at the top level (true there) and inside a quantifier (false for
+		// some element): the top-level statement sits where it is evaluated first (the leaf)
+		var recs, top *KV
+		for i := range c.inv.Args {
+			switch c.inv.Args[i].Key {
+			case "rec":
+				recs = &c.inv.Args[i]
+			case "x":
+				top = &c.inv.Args[i]
+			}
+		}
+		if recs != nil && top != nil && top.V.K == "int" {
+			worst, have := int64(0), false
+			for _, e := range recs.V.L {
+				if x, ok := e.get("x"); ok && (!have || x.I > worst) {
+					worst, have = x.I, true
+				}
+			}
+			if have && worst > top.V.I {
+				lim := top.V.I + (worst-top.V.I-1)/2 // top.x <= lim < worst
+				s = Stmt{Op: "all", Sel: ".rec", Kids: []Stmt{{Op: "<=", Sel: ".x?", Val: ptr(vInt(lim))}}}
+				first := Stmt{Op: "<=", Sel: ".x?", Val: ptr(vInt(lim))}
+				c.dlgs[n-1].Pol = append([]Stmt{first}, c.dlgs[n-1].Pol...)
+				if r.Chance(0.5) {
+					// ... and in the very policy that holds the quantifier, in front of it
+					c.dlgs[k].Pol = append([]Stmt{first}, c.dlgs[k].Pol...)
+				}
+				g.note("Q:same-selector")
+			}
+		}
+	}
 	if spotWant(r, "twin", 0.2) {
 		// twins: the false statement compares an integer argument with a FLOAT of a value for
 		// which the same statement over the integer is true, and that true twin sits elsewhere
